@@ -310,18 +310,21 @@ theorem iso_any (it : Item) (h : it.wf = true) : Iso encAny (fun it => some (Val
   subst hd
   simp [encAny, h]
 
-theorem iso_emptyMap (it : Item) (h : canonEmptyMap it = true) : Iso encEmptyMap (fun _ => some Value.unit) it := by
+theorem iso_emptyMap (it : Item) (h : canonEmptyMap it = true) : Iso encEmptyMap decEmptyMap it := by
   intro v hd
-  simp only [Option.some.injEq] at hd
-  subst hd
   cases it <;> simp only [canonEmptyMap] at h <;> try (simp at h; done)
-  case seq hd xs =>
+  case seq hd2 xs =>
     cases xs with
-    | cons _ _ => simp [canonEmptyMap] at h
+    | cons _ _ => simp at h
     | nil =>
-      simp only [canonEmptyMap, beq_iff_eq] at h
+      simp only [beq_iff_eq] at h
       subst h
-      rfl
+      simp only [decEmptyMap] at hd
+      split at hd
+      · simp only [Option.some.injEq] at hd
+        subst hd
+        rfl
+      · simp at hd
 
 theorem iso_zeroOrOne {e : Value → Option Item} {d : Item → Option Value} {c : Item → Bool} (hc : ∀ x, c x = true → Iso e d x)
     (it : Item) (h : canonZeroOrOne c it = true) : Iso (encZeroOrOne e) (decZeroOrOne d) it := by
